@@ -92,6 +92,9 @@ static void destroy(ctx_t *c) {
 /* ---- the function table ------------------------------------------------------------- */
 /* variants: each function enumerates its own argument classes; index functions sweep [-n-2, n+2] */
 typedef struct { const char *name; int (*nvar)(ctx_t *); const char *(*call)(ctx_t *, int v); } fn_t;
+/* every row is executed twice: with its optional out-parameters (size_t *size, ...) pointing to storage, and with NULL there */
+static bool NULLOUT;
+#define OUT(p) (NULLOUT ? NULL : (p))
 static int nv1(ctx_t *c) { (void)c; return 1; }
 static int nv2(ctx_t *c) { (void)c; return 2; }
 static int nv3(ctx_t *c) { (void)c; return 3; }
@@ -119,15 +122,15 @@ static const char *t_put(ctx_t *c, int v) { T->put(T, kname(c, v), "abc", 4); re
 static const char *t_putstr(ctx_t *c, int v) { T->putstr(T, kname(c, v), "abc"); return KD(v); }
 static const char *t_putstrf(ctx_t *c, int v) { T->putstrf(T, kname(c, v), "%d-%s", 42, "x"); return KD(v); }
 static const char *t_putobj(ctx_t *c, int v) { if (v == 3) { T->putobj(T, "k", 0, "abc", 4); return "namesize-0"; } const char *k = kname(c, v); T->putobj(T, k, k ? strlen(k) + 1 : 3, "abc", 4); return KD(v); }
-static const char *t_get(ctx_t *c, int v) { size_t sz; void *d = T->get(T, kname(c, v % 3), &sz, v >= 3); if (d && v >= 3) free(d); snprintf(VD, sizeof VD, "%s,newmem=%d", KD(v % 3), v >= 3); return VD; }
+static const char *t_get(ctx_t *c, int v) { size_t sz; void *d = T->get(T, kname(c, v % 3), OUT(&sz), v >= 3); if (d && v >= 3) free(d); snprintf(VD, sizeof VD, "%s,newmem=%d", KD(v % 3), v >= 3); return VD; }
 static const char *t_getstr(ctx_t *c, int v) { char *d = T->getstr(T, kname(c, v % 3), v >= 3); if (d && v >= 3) free(d); snprintf(VD, sizeof VD, "%s,newmem=%d", KD(v % 3), v >= 3); return VD; }
 static const char *t_getobj(ctx_t *c, int v) { const char *k = kname(c, v % 3); void *d = T->getobj(T, k, k ? strlen(k) + 1 : 3, NULL, v >= 3); if (d && v >= 3) free(d); snprintf(VD, sizeof VD, "%s,newmem=%d", KD(v % 3), v >= 3); return VD; }
 static const char *t_remove(ctx_t *c, int v) { T->remove(T, kname(c, v)); return KD(v); }
 static const char *t_removeobj(ctx_t *c, int v) { const char *k = kname(c, v); T->removeobj(T, k, k ? strlen(k) + 1 : 3); return KD(v); }
 static const char *t_getnext(ctx_t *c, int v) { if (v == 2) { T->getnext(T, NULL, false); return "NULL-cursor"; }
     qtreetbl_obj_t o; memset(&o, 0, sizeof o); int g = 0; while (T->getnext(T, &o, v == 1) && g++ < 100) if (v == 1) { free(o.name); free(o.data); } return v ? "walk,newmem=1" : "walk,newmem=0"; }
-static const char *t_find_min(ctx_t *c, int v) { (void)v; size_t s; free(T->find_min(T, &s)); return c->n ? "nonempty" : "empty"; }
-static const char *t_find_max(ctx_t *c, int v) { (void)v; size_t s; free(T->find_max(T, &s)); return c->n ? "nonempty" : "empty"; }
+static const char *t_find_min(ctx_t *c, int v) { (void)v; size_t s; free(T->find_min(T, OUT(&s))); return c->n ? "nonempty" : "empty"; }
+static const char *t_find_max(ctx_t *c, int v) { (void)v; size_t s; free(T->find_max(T, OUT(&s))); return c->n ? "nonempty" : "empty"; }
 static const char *t_find_nearest(ctx_t *c, int v) { const char *k = kname(c, v % 3); qtreetbl_obj_t o = T->find_nearest(T, k, k ? strlen(k) + 1 : 3, v >= 3); if (v >= 3) { free(o.name); free(o.data); } snprintf(VD, sizeof VD, "%s,newmem=%d", KD(v % 3), v >= 3); return VD; }
 static const char *t_size(ctx_t *c, int v) { (void)v; T->size(T); return "-"; }
 static const char *t_clear(ctx_t *c, int v) { (void)v; T->clear(T); return "-"; }
@@ -143,7 +146,7 @@ static const char *h_put(ctx_t *c, int v) { if (v == 3) { H->put(H, "k", NULL, 4
 static const char *h_putstr(ctx_t *c, int v) { H->putstr(H, kname(c, v), "abc"); return KD(v); }
 static const char *h_putstrf(ctx_t *c, int v) { H->putstrf(H, kname(c, v), "%d", 7); return KD(v); }
 static const char *h_putint(ctx_t *c, int v) { H->putint(H, kname(c, v), -5); return KD(v); }
-static const char *h_get(ctx_t *c, int v) { size_t sz; void *d = H->get(H, kname(c, v % 3), &sz, v >= 3); if (d && v >= 3) free(d); snprintf(VD, sizeof VD, "%s,newmem=%d", KD(v % 3), v >= 3); return VD; }
+static const char *h_get(ctx_t *c, int v) { size_t sz; void *d = H->get(H, kname(c, v % 3), OUT(&sz), v >= 3); if (d && v >= 3) free(d); snprintf(VD, sizeof VD, "%s,newmem=%d", KD(v % 3), v >= 3); return VD; }
 static const char *h_getstr(ctx_t *c, int v) { char *d = H->getstr(H, kname(c, v % 3), v >= 3); if (d && v >= 3) free(d); snprintf(VD, sizeof VD, "%s,newmem=%d", KD(v % 3), v >= 3); return VD; }
 static const char *h_getint(ctx_t *c, int v) { H->getint(H, kname(c, v)); return KD(v); }
 static const char *h_remove(ctx_t *c, int v) { H->remove(H, kname(c, v)); return KD(v); }
@@ -162,10 +165,10 @@ static const char *lt_put(ctx_t *c, int v) { if (v == 3) { L->put(L, "k", NULL, 
 static const char *lt_putstr(ctx_t *c, int v) { L->putstr(L, kname(c, v), "abc"); return KD(v); }
 static const char *lt_putstrf(ctx_t *c, int v) { L->putstrf(L, kname(c, v), "%d", 7); return KD(v); }
 static const char *lt_putint(ctx_t *c, int v) { L->putint(L, kname(c, v), -5); return KD(v); }
-static const char *lt_get(ctx_t *c, int v) { size_t sz; void *d = L->get(L, kname(c, v % 3), &sz, v >= 3); if (d && v >= 3) free(d); snprintf(VD, sizeof VD, "%s,newmem=%d", KD(v % 3), v >= 3); return VD; }
+static const char *lt_get(ctx_t *c, int v) { size_t sz; void *d = L->get(L, kname(c, v % 3), OUT(&sz), v >= 3); if (d && v >= 3) free(d); snprintf(VD, sizeof VD, "%s,newmem=%d", KD(v % 3), v >= 3); return VD; }
 static const char *lt_getstr(ctx_t *c, int v) { char *d = L->getstr(L, kname(c, v % 3), v >= 3); if (d && v >= 3) free(d); snprintf(VD, sizeof VD, "%s,newmem=%d", KD(v % 3), v >= 3); return VD; }
 static const char *lt_getint(ctx_t *c, int v) { L->getint(L, kname(c, v)); return KD(v); }
-static const char *lt_getmulti(ctx_t *c, int v) { size_t n; qlisttbl_data_t *o = L->getmulti(L, kname(c, v % 2), v >= 2, &n); if (o) L->freemulti(o); snprintf(VD, sizeof VD, "%s,newmem=%d", KD(v % 2), v >= 2); return VD; }
+static const char *lt_getmulti(ctx_t *c, int v) { size_t n; qlisttbl_data_t *o = L->getmulti(L, kname(c, v % 2), v >= 2, OUT(&n)); if (o) L->freemulti(o); snprintf(VD, sizeof VD, "%s,newmem=%d", KD(v % 2), v >= 2); return VD; }
 static const char *lt_remove(ctx_t *c, int v) { L->remove(L, kname(c, v)); return KD(v); }
 static const char *lt_removeobj(ctx_t *c, int v) { if (v == 1) { L->removeobj(L, NULL); return "NULL-object"; }
     qlisttbl_obj_t o; memset(&o, 0, sizeof o); if (L->getnext(L, &o, NULL, false)) L->removeobj(L, &o); return c->n ? "object-from-walk" : "empty"; }
@@ -194,12 +197,12 @@ static const char *l_setsize(ctx_t *c, int v) { L->setsize(L, v ? (size_t)c->n :
 static const char *l_addfirst(ctx_t *c, int v) { if (v == 1) { L->addfirst(L, NULL, 8); return "NULL-data"; } if (v == 2) { L->setsize(L, c->n ? (size_t)c->n : 1); if (!c->n) L->addlast(L, ELEM, 8); L->addfirst(L, ELEM, 8); return "full"; } L->addfirst(L, ELEM, 8); return "ok"; }
 static const char *l_addlast(ctx_t *c, int v) { if (v == 1) { L->addlast(L, ELEM, 0); return "size-0"; } if (v == 2) { L->setsize(L, c->n ? (size_t)c->n : 1); if (!c->n) L->addlast(L, ELEM, 8); L->addlast(L, ELEM, 8); return "full"; } L->addlast(L, ELEM, 8); return "ok"; }
 static const char *l_addat(ctx_t *c, int v) { int i = idx_of(c, v); L->addat(L, i, ELEM, 8); snprintf(VD, sizeof VD, "insert-index=%d", i); return VD; }
-static const char *l_getfirst(ctx_t *c, int v) { size_t s; void *d = L->getfirst(L, &s, v); if (d && v) free(d); return c->n ? (v ? "nonempty,newmem=1" : "nonempty,newmem=0") : "empty"; }
-static const char *l_getlast(ctx_t *c, int v) { size_t s; void *d = L->getlast(L, &s, v); if (d && v) free(d); return c->n ? (v ? "nonempty,newmem=1" : "nonempty,newmem=0") : "empty"; }
-static const char *l_getat(ctx_t *c, int v) { int nm = v >= nvidx(c); int i = idx_of(c, v % nvidx(c)); size_t s; void *d = L->getat(L, i, &s, nm); if (d && nm) free(d); return idxdesc(c, i); }
-static const char *l_popfirst(ctx_t *c, int v) { (void)v; size_t s; free(L->popfirst(L, &s)); return c->n ? "nonempty" : "empty"; }
-static const char *l_poplast(ctx_t *c, int v) { (void)v; size_t s; free(L->poplast(L, &s)); return c->n ? "nonempty" : "empty"; }
-static const char *l_popat(ctx_t *c, int v) { int i = idx_of(c, v); size_t s; free(L->popat(L, i, &s)); return idxdesc(c, i); }
+static const char *l_getfirst(ctx_t *c, int v) { size_t s; void *d = L->getfirst(L, OUT(&s), v); if (d && v) free(d); return c->n ? (v ? "nonempty,newmem=1" : "nonempty,newmem=0") : "empty"; }
+static const char *l_getlast(ctx_t *c, int v) { size_t s; void *d = L->getlast(L, OUT(&s), v); if (d && v) free(d); return c->n ? (v ? "nonempty,newmem=1" : "nonempty,newmem=0") : "empty"; }
+static const char *l_getat(ctx_t *c, int v) { int nm = v >= nvidx(c); int i = idx_of(c, v % nvidx(c)); size_t s; void *d = L->getat(L, i, OUT(&s), nm); if (d && nm) free(d); return idxdesc(c, i); }
+static const char *l_popfirst(ctx_t *c, int v) { (void)v; size_t s; free(L->popfirst(L, OUT(&s))); return c->n ? "nonempty" : "empty"; }
+static const char *l_poplast(ctx_t *c, int v) { (void)v; size_t s; free(L->poplast(L, OUT(&s))); return c->n ? "nonempty" : "empty"; }
+static const char *l_popat(ctx_t *c, int v) { int i = idx_of(c, v); size_t s; free(L->popat(L, i, OUT(&s))); return idxdesc(c, i); }
 static const char *l_removefirst(ctx_t *c, int v) { (void)v; L->removefirst(L); return c->n ? "nonempty" : "empty"; }
 static const char *l_removelast(ctx_t *c, int v) { (void)v; L->removelast(L); return c->n ? "nonempty" : "empty"; }
 static const char *l_removeat(ctx_t *c, int v) { int i = idx_of(c, v); L->removeat(L, i); return idxdesc(c, i); }
@@ -209,7 +212,7 @@ static const char *l_reverse(ctx_t *c, int v) { (void)v; L->reverse(L); return "
 static const char *l_clear(ctx_t *c, int v) { (void)v; L->clear(L); return "-"; }
 static const char *l_size(ctx_t *c, int v) { (void)v; L->size(L); return "-"; }
 static const char *l_datasize(ctx_t *c, int v) { (void)v; L->datasize(L); return "-"; }
-static const char *l_toarray(ctx_t *c, int v) { (void)v; size_t s; free(L->toarray(L, &s)); return c->n ? "nonempty" : "empty"; }
+static const char *l_toarray(ctx_t *c, int v) { (void)v; size_t s; free(L->toarray(L, OUT(&s))); return c->n ? "nonempty" : "empty"; }
 static const char *l_tostring(ctx_t *c, int v) { (void)v; free(L->tostring(L)); return c->n ? "nonempty" : "empty"; }
 static const char *l_debug(ctx_t *c, int v) { L->debug(L, v ? NULL : c->devnull); return v ? "NULL-stream" : "stream"; }
 #undef L
@@ -224,14 +227,14 @@ static const char *P##_setsize(ctx_t *c, int v) { c->FIELD->setsize(c->FIELD, v 
 static const char *P##_push(ctx_t *c, int v) { if (v == 1) { c->FIELD->push(c->FIELD, NULL, 8); return "NULL-data"; } if (v == 2) { c->FIELD->setsize(c->FIELD, c->n ? (size_t)c->n : 1); if (!c->n) c->FIELD->push(c->FIELD, ELEM, 8); c->FIELD->push(c->FIELD, ELEM, 8); return "full"; } c->FIELD->push(c->FIELD, ELEM, 8); return "ok"; } \
 static const char *P##_pushstr(ctx_t *c, int v) { if (v == 1) { c->FIELD->pushstr(c->FIELD, NULL); return "NULL-string"; } if (v == 2) { c->FIELD->setsize(c->FIELD, c->n ? (size_t)c->n : 1); if (!c->n) c->FIELD->push(c->FIELD, ELEM, 8); c->FIELD->pushstr(c->FIELD, "e000001"); return "full"; } c->FIELD->pushstr(c->FIELD, "e000001"); return "ok"; } \
 static const char *P##_pushint(ctx_t *c, int v) { if (v == 1) { c->FIELD->setsize(c->FIELD, c->n ? (size_t)c->n : 1); if (!c->n) c->FIELD->push(c->FIELD, ELEM, 8); c->FIELD->pushint(c->FIELD, 9); return "full"; } c->FIELD->pushint(c->FIELD, 9); return "ok"; } \
-static const char *P##_pop(ctx_t *c, int v) { (void)v; size_t s; free(c->FIELD->pop(c->FIELD, &s)); return c->n ? "nonempty" : "empty"; } \
+static const char *P##_pop(ctx_t *c, int v) { (void)v; size_t s; free(c->FIELD->pop(c->FIELD, OUT(&s))); return c->n ? "nonempty" : "empty"; } \
 static const char *P##_popstr(ctx_t *c, int v) { (void)v; free(c->FIELD->popstr(c->FIELD)); return c->n ? "nonempty" : "empty"; } \
 static const char *P##_popint(ctx_t *c, int v) { (void)v; c->FIELD->popint(c->FIELD); return c->n ? "nonempty" : "empty"; } \
-static const char *P##_popat(ctx_t *c, int v) { int i = idx_of(c, v); size_t s; free(c->FIELD->popat(c->FIELD, i, &s)); return idxdesc(c, i); } \
-static const char *P##_get(ctx_t *c, int v) { size_t s; void *d = c->FIELD->get(c->FIELD, &s, v); if (d && v) free(d); return c->n ? (v ? "nonempty,newmem=1" : "nonempty,newmem=0") : "empty"; } \
+static const char *P##_popat(ctx_t *c, int v) { int i = idx_of(c, v); size_t s; free(c->FIELD->popat(c->FIELD, i, OUT(&s))); return idxdesc(c, i); } \
+static const char *P##_get(ctx_t *c, int v) { size_t s; void *d = c->FIELD->get(c->FIELD, OUT(&s), v); if (d && v) free(d); return c->n ? (v ? "nonempty,newmem=1" : "nonempty,newmem=0") : "empty"; } \
 static const char *P##_getstr(ctx_t *c, int v) { (void)v; free(c->FIELD->getstr(c->FIELD)); return c->n ? "nonempty" : "empty"; } \
 static const char *P##_getint(ctx_t *c, int v) { (void)v; c->FIELD->getint(c->FIELD); return c->n ? "nonempty" : "empty"; } \
-static const char *P##_getat(ctx_t *c, int v) { int nm = v >= nvidx(c); int i = idx_of(c, v % nvidx(c)); size_t s; void *d = c->FIELD->getat(c->FIELD, i, &s, nm); if (d && nm) free(d); return idxdesc(c, i); } \
+static const char *P##_getat(ctx_t *c, int v) { int nm = v >= nvidx(c); int i = idx_of(c, v % nvidx(c)); size_t s; void *d = c->FIELD->getat(c->FIELD, i, OUT(&s), nm); if (d && nm) free(d); return idxdesc(c, i); } \
 static const char *P##_size(ctx_t *c, int v) { (void)v; c->FIELD->size(c->FIELD); return "-"; } \
 static const char *P##_clear(ctx_t *c, int v) { (void)v; c->FIELD->clear(c->FIELD); return "-"; } \
 static const char *P##_debug(ctx_t *c, int v) { c->FIELD->debug(c->FIELD, v ? NULL : c->devnull); return v ? "NULL-stream" : "stream"; } \
@@ -248,7 +251,7 @@ static const char *g_addstr(ctx_t *c, int v) { if (v == 1) { G->addstr(G, ""); r
 static const char *g_addstrf(ctx_t *c, int v) { (void)v; G->addstrf(G, "%d-%s", 1, "x"); return "ok"; }
 static const char *g_size(ctx_t *c, int v) { (void)v; G->size(G); return "-"; }
 static const char *g_datasize(ctx_t *c, int v) { (void)v; G->datasize(G); return "-"; }
-static const char *g_toarray(ctx_t *c, int v) { (void)v; size_t s; free(G->toarray(G, &s)); return c->n ? "nonempty" : "empty"; }
+static const char *g_toarray(ctx_t *c, int v) { (void)v; size_t s; free(G->toarray(G, OUT(&s))); return c->n ? "nonempty" : "empty"; }
 static const char *g_tostring(ctx_t *c, int v) { (void)v; free(G->tostring(G)); return c->n ? "nonempty" : "empty"; }
 static const char *g_clear(ctx_t *c, int v) { (void)v; G->clear(G); return "-"; }
 static const char *g_debug(ctx_t *c, int v) { G->debug(G, v ? NULL : c->devnull); return v ? "NULL-stream" : "stream"; }
@@ -275,7 +278,7 @@ static const char *v_removelast(ctx_t *c, int v) { (void)v; V->removelast(V); re
 static const char *v_removeat(ctx_t *c, int v) { int i = idx_of(c, v); V->removeat(V, i); return idxdesc(c, i); }
 static const char *v_size(ctx_t *c, int v) { (void)v; V->size(V); return "-"; }
 static const char *v_resize(ctx_t *c, int v) { V->resize(V, v == 0 ? 0 : v == 1 ? (size_t)c->n + 1 : (size_t)c->n + 9); return v == 0 ? "to-0" : v == 1 ? "to-n+1" : "to-n+9"; }
-static const char *v_toarray(ctx_t *c, int v) { (void)v; size_t s; free(V->toarray(V, &s)); return c->n ? "nonempty" : "empty"; }
+static const char *v_toarray(ctx_t *c, int v) { (void)v; size_t s; free(V->toarray(V, OUT(&s))); return c->n ? "nonempty" : "empty"; }
 static const char *v_clear(ctx_t *c, int v) { (void)v; V->clear(V); return "-"; }
 static const char *v_debug(ctx_t *c, int v) { V->debug(V, v ? NULL : c->devnull); return v ? "NULL-stream" : "stream"; }
 static const char *v_reverse(ctx_t *c, int v) { (void)v; V->reverse(V); return "-"; }
@@ -320,7 +323,7 @@ static bool probe_free(void *m) {
 static long run_one(int kind, fn_t *f, int v, int n, int depth, long fail_k, bool all_after) {
     ctx_t c;
     if (!make(&c, kind, n)) { fprintf(stderr, "h_lock: constructor failed\n"); exit(2); }
-    if (v >= f->nvar(&c)) { destroy(&c); return -1; }
+    { int nv = f->nvar(&c); if (v >= 2 * nv) { destroy(&c); return -1; } NULLOUT = v >= nv; v %= nv; }
     for (int d = 0; d < depth; d++) lock_it(&c);
     int d0 = vf_lock_depth(c.mutex);
     long a0 = vf_alloc_calls;
@@ -332,7 +335,7 @@ static long run_one(int kind, fn_t *f, int v, int n, int depth, long fail_k, boo
     vf_fail_at = vf_fail_from = 0;
     long allocs = vf_alloc_calls - a0;
     int d1 = vf_lock_depth(c.mutex);
-    char cls[200]; snprintf(cls, sizeof cls, "%s.%s[%s]%s", KNAME[kind], f->name, vd, fail_k ? (all_after ? ",alloc-fail-from-k" : ",alloc-fail-at-k") : "");
+    char cls[200]; snprintf(cls, sizeof cls, "%s.%s[%s%s]%s", KNAME[kind], f->name, vd, NULLOUT ? ",out=NULL" : "", fail_k ? (all_after ? ",alloc-fail-from-k" : ",alloc-fail-at-k") : "");
     vf_log("%s n=%d entry-depth=%d fail_k=%ld -> depth %d -> %d", cls, n, depth, fail_k, d0, d1);
     vf_count("evaluations", 1);
     if (fail_k) vf_count("fault_positions_injected", 1);
